@@ -63,6 +63,8 @@ func collector(prop string) *harn.Collector {
 		fl("unAuthorizeForPeer:ok:exceedsTopUp:consensus", "unAuthorizeForPeer:ok", 0.04)
 		fl("withdraw:ok:afterTopUpUnauth:candidate", "withdraw:ok:paid>0", 0.02)
 		fl("withdraw:ok:afterTopUpUnauth:consensus", "withdraw:ok:paid>0", 0.03)
+		fl("hist:reblacklist-with-undrained-penalty", "", 0.03)
+		fl("blackNode:ok:reblacklist-with-undrained-penalty", "blackNode:ok", 0.03)
 		fl("addInitPos:ok", "addInitPos", 0.30)
 		fl("reduceInitPos:ok", "reduceInitPos", 0.15)
 		fl("hist:nontrivial", "", 0.15)
@@ -129,6 +131,9 @@ func runHistories(t *testing.T, prop string, prof *profile, steps, quickN, thoro
 		}
 		if nontrivial {
 			ev.Class("hist:nontrivial")
+		}
+		if h.reblack {
+			ev.Class("hist:reblacklist-with-undrained-penalty")
 		}
 		ev.Case(nontrivial, prof.name+" "+strings.Join(h.log, " "))
 	})
